@@ -325,3 +325,18 @@ Example C06_set_extensions_nonvacuous :
   | inl _ => False
   end.
 Proof. vm_compute. repeat split; reflexivity. Qed.
+
+(* ... in particular from every constructor (NewWriterBuffer / NewWriterBufferSize /
+   NewWriterSize) with the extensions exts = [] or [c] attached before the first operation *)
+Theorem C06_history_monitor_set_extensions_constructors : forall ops state op n masks exts w00,
+  (new_writer_buffer (mkDest [] None) state op n masks = inr w00 \/
+   new_writer_buffer_size (mkDest [] None) state op n masks = inr w00 \/
+   new_writer_size (mkDest [] None) state op n masks = inr w00) ->
+  n + 14 <= max_int -> op < 16 -> Forall wf_key masks -> (exts = [] \/ exists c, exts = [c]) ->
+  Forall seg_op ops -> 28 + 4 * ops_cost ops <= max_int ->
+  let w := set_extensions exts w00 in
+  set_ext_at_rest ops w ->
+  c06_segments_monitor (client_side state) op exts (w_buflen w)
+    (steps_of ops (fst (run_wops ops w))) (dest_log (w_dest (snd (run_wops ops w)))) = true.
+Proof. exact constructors_c06_segments. Qed.
+Print Assumptions C06_history_monitor_set_extensions_constructors.
